@@ -241,7 +241,7 @@ _model_cfgs = [dict(fam=f, kind=k, bias=b) for f in _SIZE for k in _KINDS for b 
 
 HARNESSES = [
     dict(name='model', fn='h_model', property='C16', functions=['plinio/cost/*.py::<every registered cost function>'],
-         quick=_model_cfgs, thorough=_model_cfgs, timeout=60),
+         quick=_model_cfgs, thorough=_model_cfgs, timeout=180),
     dict(name='dw-generic', fn='h_dw_is_generic_per_group', property='C16', functions=[],
          quick=[dict(fam=f, nd=nd, bias=b) for f in ('params', 'params_no_bias', 'params_bit', 'ops', 'ops_no_bias', 'ops_bit')
                 for nd in (1, 2) for b in (True, False)],
@@ -404,7 +404,7 @@ HARNESSES = HARNESSES + [
          quick=[dict(kind=k, vary=v, unit=(v == 'cout' and k in ('3x3', '1x1'))) for k in ('3x3', '1x1', 'dw', 'linear')
                 for v in (('cin', 'cout', 'bits') + (('ho', 'wo') if k != 'linear' else ())) if not (k == 'dw' and v == 'cout')],
          thorough=[dict(kind=k, vary=v, unit=(v == 'cout' and k in ('3x3', '1x1'))) for k in ('3x3', '1x1', 'dw', 'linear')
-                   for v in (('cin', 'cout', 'bits') + (('ho', 'wo') if k != 'linear' else ())) if not (k == 'dw' and v == 'cout')], timeout=90),
+                   for v in (('cin', 'cout', 'bits') + (('ho', 'wo') if k != 'linear' else ())) if not (k == 'dw' and v == 'cout')], timeout=180),
     dict(name='ne16-factorisation', fn='h_ne16_factorisation', property='C16', functions=['plinio/cost/ne16_latency.py::Ne16PerfModel.latency'],
          quick=[dict(kind=k) for k in ('3x3', '1x1')], thorough=[dict(kind=k) for k in ('3x3', '1x1', 'dw')], timeout=90),
     dict(name='ne16-skeleton', fn='h_ne16_skeleton', property='C16', functions=[], quick=[{}], thorough=[{}], crosscheck=0),
